@@ -71,7 +71,7 @@ def jacknife(
         return np.nanmean(np.power(deviations, 2))
     else:
         # MAE
-        return np.nansum(np.abs(deviations)) / len(deviations)
+        return np.nanmean(np.abs(deviations))
 
 
 def aic(variogram: Variogram) -> float:
